@@ -99,9 +99,10 @@ def absorb_mc(rep, pid, recs, aspects, describe, need_nontrivial=False):
         if c:
             rep.cov.setdefault('cross_solver', {})
             for k, v in c.items():
-                rep.cov['cross_solver'].setdefault(k, {}).setdefault(v if v in ('agree', 'absent') else 'other', 0)
-                rep.cov['cross_solver'][k][v if v in ('agree', 'absent') else 'other'] += 1
-                if v not in ('agree', 'absent'):
+                tag = v if v in ('agree', 'absent', 'timeout', 'agree-or-unknown') else 'DISAGREE'
+                rep.cov['cross_solver'].setdefault(k, {}).setdefault(tag, 0)
+                rep.cov['cross_solver'][k][tag] += 1
+                if tag == 'DISAGREE':
                     rep.inconclusive('%s: %s %s' % (key, k, v))
 
 
@@ -132,6 +133,8 @@ def run_c01(rep, tier):
     tasks += [('CTL', 3, ch, {}) for ch in chunks(q1 + formulas.ctl_pairs() + q2, 12)]
     nforms = len(q1) + len(formulas.ctl_pairs()) + len(q2)
     if tier == 'thorough':
+        # a slice of the final queries is re-discharged by cvc5 1.0.3 and z3 4.8.12 on the recorded dialogue
+        tasks += [('CTL', 3, ch, dict(cross=True, audit=False)) for ch in chunks(formulas.CTL_SINGLE + formulas.ctl_pairs()[::13], 4)]
         tasks += [('CTL', 3, ch, {}) for ch in chunks(formulas.ctl_depth3_one_atom(), 12)]
         nforms += len(formulas.ctl_depth3_one_atom())
         n4 = formulas.CTL_SINGLE + formulas.ctl_pairs()[::5]
